@@ -185,6 +185,58 @@ pub fn run(args: &[String]) -> Vec<String> {
             }
         }
     }
+    // ---- sequences of waits on ONE stream: a verdict is a function of the present state (samples queued, request,
+    // writer alive), never of an earlier verdict. The same handle is asked again with other amounts after the
+    // writer has gone (a "never" for 10 samples says nothing about a request for the 3 that are there), and
+    // between consumes. No blocking calls: with the writer alive only satisfiable requests are made.
+    for case in 0..24 {
+        let (w, r) = small_stream::<u8>();
+        let mut keep = Some(w);
+        let mut used = 0usize;
+        let mut first = 1u8; // value of the oldest unread sample
+        let mut next = 1u8; // value the writer commits next
+        let steps = 6 + rng.below(10);
+        for step in 0..steps {
+            let alive = keep.is_some();
+            let op = if !alive || case % 3 == 0 { 3 + rng.below(3) } else { rng.below(6) };
+            match op {
+                0 | 1 if alive => {
+                    let n = rng.range(0, 6);
+                    fill(keep.as_ref().unwrap(), n, next);
+                    used += n;
+                    next = next.wrapping_add(n as u8);
+                }
+                2 if alive && step >= 1 => keep = None,
+                3 if used > 0 => {
+                    let c = rng.range(0, used.min(3));
+                    let (rb, _) = r.read_buf().unwrap();
+                    rb.consume(c);
+                    used -= c;
+                    first = first.wrapping_add(c as u8);
+                }
+                _ => {
+                    let need = *rng.pick(&[0usize, 1, 2, 3, used, used + 1, used.saturating_sub(1), used + 7, 4097]);
+                    if alive && used < need {
+                        continue;
+                    }
+                    let v = r.wait(need);
+                    let e = r.eof();
+                    let intact = {
+                        let (rb, _) = r.read_buf().unwrap();
+                        rb.len() == used && rb.slice().iter().enumerate().all(|(i, x)| *x == first.wrapping_add(i as u8))
+                    };
+                    out.push(format!("wait reader {used} {need} {}\t{v} eof={e} intact={intact}", alive as u8));
+                }
+            }
+        }
+        // the closing pair that every case ends with: too much, then exactly what is there
+        drop(keep.take());
+        for need in [used + 1, used, used.min(1)] {
+            let v = r.wait(need);
+            let e = r.eof();
+            out.push(format!("wait reader {used} {need} 0\t{v} eof={e} intact=true"));
+        }
+    }
     // packet streams
     for qlen in [0usize, 1, 3] {
         for need in [0usize, 1, 2, 4] {
